@@ -261,22 +261,32 @@ example : VhdxForward (ascii "vhdxfile") ∧ VhdxMetaSigOK (ascii "vhdxfile") :=
 example (sz : Bytes) (hs : sz.length = 8) : VhdxForward (vhdxSample sz) ∧ VhdxMetaSigOK (vhdxSample sz) :=
   vhdx_hyps_of_image _ _ _ _ _ _ _ (lemma_sample_image sz hs)
 
+/-- the specification on a stream whose walks find an 8-byte size item that is completely there -/
+theorem lemma_spec_size (x : Bytes) (mo ioff : Nat) (sz : Bytes) (hs : sz.length = 8) (hl : 262144 ≤ x.length)
+    (hr : findMetaRegionB (sliceOf x 196608 65536) = .ok (some mo))
+    (he : findMetaEntryB (sliceOf x mo 65536) = .ok (some (ioff, 8)))
+    (hvd : sliceOf x (mo + ioff) 8 = sz) :
+    specVhdx x = vhdxVerdict (startsWith x (ascii "vhdxfile")) true (.ok (leNat sz : Nat)) none := by
+  have m : min 8 65536 = 8 := by omega
+  have hl' : ¬ x.length < 262144 := by omega
+  unfold specVhdx
+  simp only [if_neg hl', hr, he, m, hvd, hs, if_true, unpackLE]
+
 theorem vhdx_sample_spec (sz : Bytes) (hs : sz.length = 8) :
     specVhdx (vhdxSample sz) = vhdxVerdict true true (.ok (leNat sz : Nat)) none := by
   have himg := lemma_sample_image sz hs
   have hr := lemma_image_region _ _ _ _ _ _ _ himg
   obtain ⟨he, _, _⟩ := lemma_image_entry _ _ _ _ _ _ _ himg
   have hlen := lemma_sample_length sz hs
-  have m : min 8 65536 = 8 := by decide
   have hvd : sliceOf (vhdxSample sz) (262144 + 64) 8 = sz := by
     have h1 := lemma_vslice_sliceOf (vhdxSample sz) (262144 + 64) 8 0 8 (by omega)
     rw [lemma_sample_size sz hs] at h1
     have h2 : slice (sliceOf (vhdxSample sz) (262144 + 64) 8) 0 8 = sliceOf (vhdxSample sz) (262144 + 64) 8 := by
       simp only [slice, sliceOf, List.drop_zero, List.take_take, Nat.min_self]
     rw [← h2]; exact h1
-  unfold specVhdx
-  simp only [if_neg (show ¬ (vhdxSample sz).length < 262144 by omega), hr, he, m, hvd, hs, lemma_sample_magic,
-    if_true, unpackLE]
+  have := lemma_spec_size (vhdxSample sz) 262144 64 sz hs (by omega) hr he hvd
+  rw [lemma_sample_magic] at this
+  exact this
 
 example (s0 : Insp) (h0 : Insp.init .vhdx = some s0) (chunks : List Bytes)
     (h : chunks.flatten = vhdxSample [0, 0, 0, 64, 0, 0, 0, 0]) :
